@@ -202,14 +202,7 @@ def check(ctx):
             c = M.reg_calls[r]
             rv = c.func.value
 
-            def is_yielded(name):
-                """`res`, or a local every definition of which is `= res` / `= _cancellableInlineCallbacks(res)` (the Deferred of a yielded generator)"""
-                if name == res:
-                    return True
-                vals = [v for d in name_assign_nodes(g, name) for t, v in targets_values(g.node(d).ast) if is_name(t, name)]
-                return bool(vals) and all(v is not None and (is_name(v, res) or (isinstance(v, ast.Call) and is_name(v.func, "_cancellableInlineCallbacks")
-                                                                                 and len(v.args) == 1 and is_name(v.args[0], res))) for v in vals)
-            ctx.check(isinstance(rv, ast.Name) and is_yielded(rv.id), "await/registered-on-yielded-object", ctx.construct(q, c),
+            ctx.check(isinstance(rv, ast.Name) and M.is_yielded(rv.id), "await/registered-on-yielded-object", ctx.construct(q, c),
                       f"the helper is not registered on the object the generator yielded (`{res}`)")
             for outcome, callee, extra in M.routes[r]:
                 what = "success" if outcome == "ok" else "failure"
